@@ -110,7 +110,15 @@ def pool_G(E, env):
     return {"s": s, "e1": E.NthPower(s, 2), "e2": E.Sine(x), "e3": E.Multiply(s, x), "v": x}
 
 
-POOLS = {"G": pool_G, "F": pool_F, "A": pool_A, "B": pool_B, "C": pool_C, "D": pool_D, "E": pool_E}
+def pool_H(E, env):
+    # unary nodes over sub-trees that are already reduced but not in normal form (Add(u, Negation(v)), Multiply(u, Reciprocal(v)))
+    x, y = E.Variable("x"), E.Variable("y")
+    a = E.Add(x, E.Negation(y))
+    m = E.Multiply(x, E.Reciprocal(y))
+    return {"s": a, "e1": E.Sine(a), "e2": E.Exponential(m), "e3": E.Logarithm(E.NthRoot(E.Negation(a), 3)), "m": m}
+
+
+POOLS = {"H": pool_H, "G": pool_G, "F": pool_F, "A": pool_A, "B": pool_B, "C": pool_C, "D": pool_D, "E": pool_E}
 CREATORS = ("mk", "mkexpr")
 
 
@@ -195,7 +203,8 @@ def run_op(op, objs, pts, sm, E):
         def mk():
             objs[op[1]] = {"partial": lambda: sm.Partial(t, "x"), "partial_early": lambda: sm.Partial(t, "x", compute_early=True),
                            "diff": lambda: sm.Differential(t), "diff_early": lambda: sm.Differential(t, compute_early=True),
-                           "partial_y": lambda: sm.Partial(t, "y")}[kind]()
+                           "partial_y": lambda: sm.Partial(t, "y"), "partial_t": lambda: sm.Partial(t, "t"),
+                           "partial_t_early": lambda: sm.Partial(t, E.Variable("t"), compute_early=True)}[kind]()
             return 0
         return rt.outcome(mk)
     if k == "q":
@@ -488,6 +497,12 @@ def exec_barenumber(spec, env):
     sm, E = rt.ns()
     e = rt.build(spec["d"], env, {})
     a = env["a"]
+    if spec.get("embed"):
+        # other expressions are built around e (and around its first child) first: that must not change what e accepts
+        zz = E.Variable("zz")
+        subs = [e] + [getattr(e, n) for n in ("_inner", "_left") if isinstance(getattr(e, n, None), sm.Expression)]
+        for t in subs:
+            rt.outcome(lambda: [E.Minus(t, zz), E.Divide(t, zz), E.Power(t, zz), t - zz, t / zz, t ** zz, E.Add(t, zz), E.Multiply(zz, t)] and 0)
     outs = [rt.outcome(lambda: e.at(a)), rt.outcome(lambda: sm.Derivative(e).at(a)),
             rt.outcome(lambda: sm.Derivative(e, compute_early=True) and 0)]
     box = {}
@@ -587,6 +602,7 @@ def _order_ops(sm, E, vs):
         "asexp_fwd": lambda e, p: shown_list([sm.Partial(e, v).as_expression() for v in vs]),
         "asexp_rev": lambda e, p: (lambda d: shown_list([d.component(v).as_expression() for v in vs]))(sm.Differential(e, compute_early=True)),
         "norm": lambda e, p: Shown(e._normalize()),
+        "deriv": lambda e, p: [sm.Derivative(e).at(p), sm.Derivative(e, compute_early=True).at(p), sm.Partial(e, vs[0]).at(p)],
         # (a Point prints its coordinates in the order they were written - that is its constructor call, see C13 - so it is not printed here)
         "repr": lambda e, p: Shown([e, sm.Differential(e), sm.Partial(e, vs[0]), sm.Differential(e, compute_early=True)]),
     }
@@ -693,3 +709,19 @@ def exec_reduce(spec, env):
         return [list(cap.records), repr(n1), repr(n2)]
     outs.append(rt.outcome(full))
     return outs
+
+
+@concrete.register("ldroutes")
+def exec_ldroutes(spec, env):
+    """C12: LocatedDifferential objects of the same expression and point obtained through different routes are equal (and hash alike)"""
+    sm, E = rt.ns()
+    z = rt.build(spec["d"], env, {})
+    vs = rt.variables_of(spec["d"])
+    mk = lambda: sm.Point(**{v: env[v] for v in vs})  # noqa: E731
+
+    def run():
+        a = sm.LocatedDifferential(z, mk())
+        b = sm.Differential(z, compute_early=True).at(mk())
+        c = sm.Differential(z).at(mk())
+        return bool(a == b) and bool(b == a) and bool(a == c) and bool(c == b) and bool(_h(a) == _h(b)) and bool(_h(b) == _h(c))
+    return [rt.outcome(run)]
